@@ -179,9 +179,15 @@ def run_sharded(name, fn, nshards=None):
     if nshards == 1 or os.environ.get("ADVF_INLINE"):
         results = [_shard_entry((name, s)) for s in range(nshards)]
     else:
+        import concurrent.futures
+        from concurrent.futures.process import BrokenProcessPool
         ctx = multiprocessing.get_context("fork")
-        with ctx.Pool(min(nshards, NSHARDS)) as pool:
-            results = pool.map(_shard_entry, [(name, s) for s in range(nshards)], chunksize=1)
+        try:
+            with concurrent.futures.ProcessPoolExecutor(min(nshards, NSHARDS), mp_context=ctx) as pool:
+                results = list(pool.map(_shard_entry, [(name, s) for s in range(nshards)]))
+        except BrokenProcessPool as e:
+            # a shard process died (e.g. the interpreter crashed): a harness error, never a verdict about the property
+            raise env.HarnessError("a shard process of %s died unexpectedly: %r" % (name, e))
     for status, r in results:
         if status != "ok":
             raise env.HarnessError("shard of %s failed:\n%s" % (name, r))
